@@ -184,7 +184,16 @@ class C07(Prop):
                 and sorted(fl.get("python", [])) == sorted(fl.get("doctrans", []) + ["kwargs"]):
             return "C07-D3-undocumented-kwargs-dropped"
         if what == "parameter order differs from the source" and not (complete and in_order):
-            return "C07-D3-documented-parameters-come-first"
+            # the recorded behaviour, exactly (Py.irMerge_keys): documented names in docstring order, then the
+            # others in signature order, a documented **kwargs last
+            sig = [p["name"] for p in f["params"]]
+            doc_names = [n for n in documented if n != "kwargs"]
+            if c["form"] == "class_init":  # the class merge keeps a documented kwargs where the docstring has it
+                predicted = list(documented) + [n for n in sig if n not in documented]
+            else:
+                predicted = doc_names + [n for n in sig if n not in doc_names] + (["kwargs"] if "kwargs" in documented else [])
+            if fl.get("doctrans") == predicted:
+                return "C07-D3-documented-parameters-come-first"
         if what == "signature default not carried" and "<ast." in str(fl.get("got")):
             p = [q for q in f["params"] if q["name"] == fl.get("name")]
             e = [d for d in f["doc"] if d["name"] == fl.get("name")]
